@@ -83,9 +83,13 @@ def build(game, shape, r, mapset=False, variant="plain"):
     if game == "osu":
         from reamber.osu.lists.OsuSampleList import OsuSampleList
         from reamber.osu.OsuSample import OsuSample
-        m.preview_time = 3000
+        m.preview_time = r.choice([3000, 8639])
         m.circle_size = 4
-        m.samples = OsuSampleList([OsuSample(offset=1500.0, sample_file="a.wav", volume=60)][:shape[3]])
+        # one sample event, or several with the earliest exactly at 0 ms
+        smp = r.choice([[OsuSample(offset=1500.0, sample_file="a.wav", volume=60)],
+                        [OsuSample(offset=0.0, sample_file="z.wav", volume=50), OsuSample(offset=1500.0, sample_file="a.wav", volume=60),
+                         OsuSample(offset=4000.0, sample_file="b.wav", volume=70)]])
+        m.samples = OsuSampleList(smp[: (len(smp) if shape[3] else 0)])
     if game == "sm" or mapset:
         kw = dict(maps=[m] + ([new_map(game, content(game, (2, 1, 0, 0), r))] if shape[3] else []))
         ms_ = mapset_class(game)(**kw)
@@ -143,8 +147,17 @@ def exec_rates(scn):
             res = obj.rate(n / d)
             post = _proj(res, game)
             mpost = [proj_meta(res, game, i) for i in range(len(post))]
+            # "a new chart": the result is edited in place (and restored); the original must not see it
+            touched = []
+            for ch in (res.maps if hasattr(res, "maps") else [res]):
+                for lst in ch.objs.values():
+                    if len(lst):
+                        lst.df.iloc[0, list(lst.df.columns).index("offset")] += 12345.0
+                        touched.append(lst)
             after = _proj(obj, game)
             mafter = [proj_meta(obj, game, i) for i in range(len(after))]
+            for lst in touched:
+                lst.df.iloc[0, list(lst.df.columns).index("offset")] -= 12345.0
             # one record per chart of a map set
             recs = []
             for i, (a, b, c) in enumerate(zip(pre, post, after)):
